@@ -51,6 +51,7 @@ use astria_eyre::{
     eyre_to_anyhow,
 };
 use cnidarium::{
+    StateDelta,
     StateRead,
     StateWrite,
 };
@@ -382,9 +383,22 @@ impl AppHandlerExecute for Ics20Transfer {
             .map_err(|err| eyre_to_anyhow(err).context("failed to read upgrade info"))?
             .is_some();
 
-        let ack = match receive_tokens(&mut state, &msg.packet).await {
-            Ok(()) => TokenTransferAcknowledgement::success(),
+        // Execute the transfer on a branch of the state which is only merged back if the whole
+        // transfer succeeds. A transfer that fails part way (e.g. insufficient escrow after the
+        // deposit for a bridge account was already recorded) is acknowledged with an error and
+        // must not leave any writes, deposits or events behind.
+        let mut state_branch = StateDelta::new(&mut state);
+        let result = receive_tokens(&mut state_branch, &msg.packet).await;
+        let ack = match result {
+            Ok(()) => {
+                let (_, events) = state_branch.apply();
+                for event in events {
+                    state.record(event);
+                }
+                TokenTransferAcknowledgement::success()
+            }
             Err(e) => {
+                drop(state_branch);
                 tracing::warn!(
                     error = AsRef::<dyn std::error::Error>::as_ref(&e),
                     "failed to execute ics20 transfer"
